@@ -112,12 +112,52 @@ impl Prop for C07 {
             cx.count("libraries_with_shared_layer_numbers");
         }
         let g = rand_raw_lib(&mut cx.rng, &cfg);
+        if !self.trip(cx, &g, via_file) {
+            return;
+        }
+        // History: the same library converted again after an edit IN PLACE (a cell moved, as an editor's "move" does: every coordinate of
+        // every element shifted, buffers and lengths unchanged). The second conversion owes nothing to the first.
+        if !via_file && cx.n % 4 == 1 {
+            let (dx, dy) = (cx.rng.range(-5000, 5000) as raw::Int, cx.rng.range(-5000, 5000) as raw::Int);
+            for c in g.lib.cells.iter() {
+                let mut c = c.write().unwrap();
+                if let Some(l) = c.layout.as_mut() {
+                    for e in l.elems.iter_mut() {
+                        match &mut e.inner {
+                            Shape::Rect(r) => {
+                                r.p0.x += dx;
+                                r.p0.y += dy;
+                                r.p1.x += dx;
+                                r.p1.y += dy;
+                            }
+                            Shape::Polygon(p) => p.points.iter_mut().for_each(|q| {
+                                q.x += dx;
+                                q.y += dy;
+                            }),
+                            Shape::Path(p) => p.points.iter_mut().for_each(|q| {
+                                q.x += dx;
+                                q.y += dy;
+                            }),
+                        }
+                    }
+                }
+            }
+            cx.count("second_conversions_after_in_place_edit");
+            if !self.trip(cx, &g, false) {
+                cx.violation("after-in-place-edit|second-conversion-wrong", json!({"shift": [dx as i64, dy as i64], "see": "the other witness of this case"}));
+            }
+        }
+    }
+}
+impl C07 {
+    /// One raw -> GDSII -> raw trip of `g.lib` as it is now, judged against a summary taken now. False if a violation was reported.
+    fn trip(&self, cx: &mut Cx, g: &GenRaw, via_file: bool) -> bool {
         cx.eval();
         let want = match summarize(&g.lib, &g.defs) {
             Ok(w) => w,
             Err(e) => {
                 cx.inconclusive(format!("generator: {}", e));
-                return;
+                return false;
             }
         };
         let interesting = want.values().any(|(i, e)| !i.is_empty() || e.iter().any(|x| x.3.is_some() || matches!(x.2, CShape::Path(..))));
@@ -128,7 +168,7 @@ impl Prop for C07 {
         let gds = match guard(|| g.lib.to_gds()) {
             Err(c) => {
                 cx.violation(&format!("export-panic|{}|{}", c.site(), c.norm_msg()), json!({"panic": c.msg, "at": format!("{}:{}", c.file, c.line), "lib": format!("{:?}", want).chars().take(1500).collect::<String>()}));
-                return;
+                return false;
             }
             Ok(Err(e)) => {
                 let es = format!("{:?}", e);
@@ -151,7 +191,7 @@ impl Prop for C07 {
                     "other".to_string()
                 };
                 cx.violation(&format!("export-error|{}", fam), json!({"error": es.chars().take(600).collect::<String>()}));
-                return;
+                return false;
             }
             Ok(Ok(gds)) => gds,
         };
@@ -167,7 +207,7 @@ impl Prop for C07 {
                 Some(s) => s,
                 None => {
                     cx.violation("export|cell-missing", json!({"cell": c.name}));
-                    return;
+                    return false;
                 }
             };
             for e in &lay.elems {
@@ -175,7 +215,7 @@ impl Prop for C07 {
                     let texts: Vec<&gds21::GdsTextElem> = st.elems.iter().filter_map(|x| if let gds21::GdsElement::GdsTextElem(t) = x { if t.string == *net { Some(t) } else { None } } else { None }).collect();
                     if texts.len() != 1 {
                         cx.violation("export|label-count", json!({"net": net, "labels": texts.len()}));
-                        return;
+                        return false;
                     }
                     let q = (texts[0].xy.x as i64, texts[0].xy.y as i64);
                     let p = |q: &raw::Point| (q.x as i64, q.y as i64);
@@ -186,7 +226,7 @@ impl Prop for C07 {
                     };
                     if !inside {
                         cx.violation(&format!("export|label-outside-shape|{}", shape_family(&e.inner)), json!({"net": net, "label_at": q, "shape": format!("{:?}", e.inner)}));
-                        return;
+                        return false;
                     }
                     cx.count("labels_inside");
                 }
@@ -196,7 +236,7 @@ impl Prop for C07 {
                     if !found {
                         let closed = st.elems.iter().any(|x| if let gds21::GdsElement::GdsPath(gp) = x { gp.xy.len() == want_xy.len() + 1 && gp.xy.first() == gp.xy.last() } else { false });
                         cx.violation(if closed { "export|open-path-exported-closed" } else { "export|path-points-changed" }, json!({"path": format!("{:?}", path)}));
-                        return;
+                        return false;
                     }
                     cx.count("paths_kept_open");
                 }
@@ -215,11 +255,11 @@ impl Prop for C07 {
                 }
                 Ok(Err(e)) => {
                     cx.violation("via-file|save-or-load-error", json!({"error": format!("{:?}", e).chars().take(300).collect::<String>()}));
-                    return;
+                    return false;
                 }
                 Err(c) => {
                     cx.violation(&format!("via-file|panic|{}|{}", c.site(), c.norm_msg()), json!({"panic": c.msg}));
-                    return;
+                    return false;
                 }
             }
         } else {
@@ -228,34 +268,34 @@ impl Prop for C07 {
         let back = match guard(|| Library::from_gds(&gds, Some(g.lib.layers.clone()))) {
             Err(c) => {
                 cx.violation(&format!("import-panic|{}|{}", c.site(), c.norm_msg()), json!({"panic": c.msg}));
-                return;
+                return false;
             }
             Ok(Err(e)) => {
                 cx.violation(&format!("import-error|units-{}", unit), json!({"error": format!("{:?}", e).chars().take(400).collect::<String>()}));
-                return;
+                return false;
             }
             Ok(Ok(l)) => l,
         };
         if back.units != g.lib.units {
             cx.violation(&format!("units-changed|{}", unit), json!({"want": unit, "got": format!("{:?}", back.units)}));
-            return;
+            return false;
         }
         let got = match summarize(&back, &g.defs) {
             Ok(s) => s,
             Err(e) => {
                 cx.violation("import|unresolvable-layer", json!({"error": e}));
-                return;
+                return false;
             }
         };
         if got.keys().collect::<Vec<_>>() != want.keys().collect::<Vec<_>>() {
             cx.violation("cell-set", json!({"want": want.keys().collect::<Vec<_>>(), "got": got.keys().collect::<Vec<_>>()}));
-            return;
+            return false;
         }
         for (name, (wi, we)) in &want {
             let (gi, ge) = &got[name];
             if wi != gi {
                 cx.violation("instances", json!({"cell": name, "want": format!("{:?}", wi), "got": format!("{:?}", gi)}));
-                return;
+                return false;
             }
             if we != ge {
                 // classify the first differing element
@@ -278,10 +318,11 @@ impl Prop for C07 {
                     None => "extra-element",
                 };
                 cx.violation(&format!("elements|{}", class), json!({"cell": name, "missing": format!("{:?}", missing), "want": we.len(), "got": ge.len()}));
-                return;
+                return false;
             }
         }
         cx.count("roundtrip_ok");
         cx.sample(|| json!({"units": unit, "cells": want.iter().map(|(k, v)| format!("{}: {} insts {} elems", k, v.0.len(), v.1.len())).collect::<Vec<_>>()}));
+        true
     }
 }
